@@ -140,6 +140,10 @@ pub struct Cfg {
     /// collect a digest of per-op destroyed sets and counts (C09)
     pub digest: bool,
     pub strict_loopback: bool,
+    /// `Node::clone` (used by make_mut on a shared value) does not copy the
+    /// handles stored in the value (a hand-written Clone), instead of copying
+    /// them (a derived Clone)
+    pub shallow_clone: bool,
 }
 
 pub struct World {
@@ -317,14 +321,15 @@ impl Clone for Node {
         let wd = w();
         let new_id = wd.model.borrow_mut().new_obj(0, 0, !self.dscript.is_empty());
         let n = Node::new(new_id, self.dscript.clone());
-        for s in self.slots.borrow().iter() {
+        let shallow = wd.cfg.shallow_clone;
+        for s in self.slots.borrow().iter().filter(|_| !shallow) {
             let c = lib(|| Rc::clone(&s.h));
             let lr = LoggedRc::new(c, s.target);
             lr.owner.set(new_id);
             n.slots.borrow_mut().push(lr);
             wd.model.borrow_mut().objs[new_id as usize].slots.push(s.target);
         }
-        for s in self.weaks.borrow().iter() {
+        for s in self.weaks.borrow().iter().filter(|_| !shallow) {
             let c = {
                 let _t = track_on();
                 Weak::clone(&s.w)
